@@ -88,6 +88,12 @@ def run(chk):
         if m.get("kind") == "mismatch":
             chk.finding(m["key"], {"stage": "A:indicator-configs", "ctx": m.get("ctx")})
     isumm = [l for l in ilines if l.get("kind") == "summary"][0]
+    # accepted selection methods never panic on ANY stream over ordered tokens with ties and signed zeros: the TLC-enumerated
+    # behaviours of MC_Tok (as in C04) replayed, panics only (a wrong value without a panic is C04's finding, not C10's)
+    import tokfam
+    tjobs = [dict(subjects=[sj], pmax=255, inits="ZeroOnly", lens="L1to3", ranks="R3z", negzero=True, depth=6, first=False)
+             for sj in ["SMM", "Highest", "Lowest", "HighestIndex", "LowestIndex", "HighestLowestDelta"]]
+    tokfam.emit_replay(chk, yv, "c10tok", tjobs, 6, False, False, lambda key: ":panic" in key or ":rejected" in key)
     # accepted instances on LONG streams (trends with ripple: hundreds of local peaks on one side of zero; steady rallies of
     # > PeriodType::MAX bars): internal counters of PeriodType width must not overflow
     os.environ["YV_LONG_REGIMES"] = "1"
